@@ -52,13 +52,13 @@ func init() {
 		NotCovered: "equality of program output across configurations in general; the unchecked push headroom (growth is only tested at calls, at 70% occupancy); thread-pool and channel sizing.",
 	}
 	props["C13"] = &PropSpec{
-		Rules:      []string{"path/closeupvalues", "path/continue-closes", "path/loop-closes-upvalues", "cover/rebase"},
-		Decides:    "that every loop form the compiler emits closes the upvalues captured in an iteration before it jumps back (inner scope left, or an explicit closing), so closures of different iterations do not share a variable; that an open upvalue never outlives the stack slot it points at: every VM function that releases or reuses the current frame's slots closes the frame's upvalues first (frame restore, in-place tail call); `continue` lands on the end-of-iteration upvalue closing the compiler emits; stack growth rebases every open upvalue.",
+		Rules:      []string{"path/closeupvalues", "path/continue-closes", "path/loop-closes-upvalues", "upvalue/capture-walk", "cover/rebase"},
+		Decides:    "that the walk over the open-upvalue list stops at (not past) an entry for the captured slot and reuses it, so two closures capturing one variable share one upvalue; that every loop form the compiler emits closes the upvalues captured in an iteration before it jumps back (inner scope left, or an explicit closing), so closures of different iterations do not share a variable; that an open upvalue never outlives the stack slot it points at: every VM function that releases or reuses the current frame's slots closes the frame's upvalues first (frame restore, in-place tail call); `continue` lands on the end-of-iteration upvalue closing the compiler emits; stack growth rebases every open upvalue.",
 		NotCovered: "the sorted-list invariant of the open-upvalue list under arbitrary capture orders (captureUpvalue), and which scope a given local is closed with in every loop form.",
 	}
 	props["C29"] = &PropSpec{
-		Rules:      []string{"optable/handled", "optable/width", "optable/siteinfo", "cover/offsets", "layout/prepend-bytes"},
-		Decides:    "that a function prepending a prologue to a finished instruction stream shifts stored offsets and line-info counts by exactly the number of bytes it prepended on every path; that the three places which must agree on the instruction encoding do agree, for every opcode: the VM run loop, the disassembler and every emission site of the compiler (existence of a handler, and the number of operand bytes); that a call opcode is always paired with the call-site record type its handler reinterprets; and that the functions rewriting a finished instruction stream move every stored offset.",
+		Rules:      []string{"optable/handled", "optable/width", "optable/siteinfo", "cover/offsets", "layout/prepend-bytes", "pool/patched-slot-unique"},
+		Decides:    "that a value-pool slot the compiler reserves with a placeholder and patches later cannot be shared with another load (the pool does not de-duplicate the placeholder's representation); that a function prepending a prologue to a finished instruction stream shifts stored offsets and line-info counts by exactly the number of bytes it prepended on every path; that the three places which must agree on the instruction encoding do agree, for every opcode: the VM run loop, the disassembler and every emission site of the compiler (existence of a handler, and the number of operand bytes); that a call opcode is always paired with the call-site record type its handler reinterprets; and that the functions rewriting a finished instruction stream move every stored offset.",
 		NotCovered: "operand-stack depth consistency and the numeric values of jump offsets for particular programs (properties of emitted sequences, not of the emitter's shape).",
 	}
 }
